@@ -29,7 +29,9 @@ for (const line of fs.readFileSync(process.argv[2], 'utf8').split('\n')) {
       return new Proxy(f, {
         get(t, k) { if (k === Symbol.toPrimitive) return () => (r() < 0.5 ? 1 : 0); if (k === Symbol.iterator) return function* () { while (r() < 0.5) yield value(); }; if (k === 'then') return undefined; if (r() < 0.08) throw new Error('get'); return value(); },
         set() { if (r() < 0.05) throw new Error('set'); return true; },
-        has() { return r() < 0.5; },
+        // (an object named in the program's own `with` does not shadow the global constants swc folds: `with (o) { for (; !undefined;) … }`
+        // would otherwise leave a loop the analyzer — through swc's `is_global_ref_to` — takes for endless; stated in DESIGN §5 C10)
+        has(t, k) { return !KEEP.has(k) && r() < 0.5; },
         apply() { if (dead || ++steps > BUDGET) { dead = true; throw ABORT; } if (r() < 0.2) throw new Error('call'); return value(); },
         construct() { if (r() < 0.2) throw new Error('new'); return opaque(); },
         ownKeys() { return r() < 0.5 ? ['a', 'b'] : []; },
